@@ -67,6 +67,11 @@ const char *__asan_default_options(void)
 }
 const char *__ubsan_default_options(void) __attribute__((used));
 const char *__ubsan_default_options(void) { return "halt_on_error=1:exitcode=77:print_stacktrace=1"; }
+/* libc protects its own globals (tzset's cached TZ string, stdio buffers, ...) with internal low-level locks
+ * that TSan cannot see, because libc is not instrumented: interceptors (malloc, free, ...) that are entered
+ * from inside libc are therefore ignored.  Accesses made by the library under test are unaffected. */
+const char *__tsan_default_suppressions(void) __attribute__((used));
+const char *__tsan_default_suppressions(void) { return "called_from_lib:libc.so\n"; }
 const char *__tsan_default_options(void) __attribute__((used));
 const char *__tsan_default_options(void) { return "exitcode=66:halt_on_error=1:report_signal_unsafe=0:history_size=4:suppress_equal_stacks=0:suppress_equal_addresses=0"; }
 const char *__msan_default_options(void) __attribute__((used));
